@@ -182,6 +182,9 @@ pub struct ModelCfg {
     pub overhead: usize,
     /// a background sweeper may remove expired generations at any time
     pub sweeper: bool,
+    /// this model sees every call made to the store (single client): the rule that a failed
+    /// call's explicit timestamp never shows up in a later automatic one can be applied
+    pub sees_all_calls: bool,
 }
 
 #[derive(Clone, Debug)]
@@ -349,7 +352,7 @@ impl Model {
             }
         }
         let ceiling = self.now_hint.max(self.max_accepted).saturating_add(1_000_000);
-        if let Some(f) = self.rejected_future.iter().find(|f| ts >= **f && **f > ceiling) {
+        if let Some(f) = self.rejected_future.iter().find(|f| self.cfg.sees_all_calls && ts >= **f && **f > ceiling) {
             return fail(
                 "rejected-timestamp-absorbed",
                 format!(
